@@ -1,6 +1,6 @@
 \* C41 quick: legacy density resolution, all (deep context, a, b, d) over sparse ratio tips without VRF output (chains of near ties s, s+1, s+2)
 CONSTANT MaxBN = 1
-CONSTANT MaxVRF = -1
+CONSTANT MaxVRF <- NoVRF
 CONSTANT MaxSlot = 1
 CONSTANT ForkSlots = {1}
 CONSTANT Windows = {0}
